@@ -1,6 +1,6 @@
 (** Property C05 — thresholds count distinct trusted principals, each with a distinct valid key.
     Only statements here; proofs are in SigProofs.v. *)
-From GV Require Import Sig SigProofs.
+From GV Require Import Sig SigProofs C19Exact.
 
 (** Soundness, injectivity, one-Git-credit.  Whenever [SignatureVerifier.Verify] accepts with the
     set [S], there is an assignment [W] of keys to exactly the members of [S] such that: the
@@ -49,3 +49,24 @@ Example C05_git_plus_envelope :
   verify {| v_principals := [P 1 [1]%N; P 2 [2]%N]; v_threshold := 2; v_exhaustive := false |}
          true 1%N (Some [Sg 2%N; Sg 9%N; {| s_hint := 2%N; s_signer := 2%N; s_valid := false |}]) = VOkSet [1%N; 2%N].
 Proof. vm_compute. reflexivity. Qed.
+
+(** Exactness for principals that each hold one key and share none: the approvals alone are
+    accepted exactly when the principals whose key validly signed the envelope number at least the
+    threshold - no valid signer is left out, none is counted twice. *)
+Theorem C05_exact_for_single_key_principals : forall v sigs,
+  simple (v_principals v) -> sigs <> [] -> v_exhaustive v = false -> (1 < v_threshold v)%Z -> v_principals v <> [] ->
+  verify v false 0%N (Some sigs) =
+  if (v_threshold v <=? Z.of_nat (List.length (cred (v_principals v) sigs [])))%Z
+  then VOkSet (cred (v_principals v) sigs []) else VErr EUnmet (cred (v_principals v) sigs []).
+Proof. exact verify_without. Qed.
+Print Assumptions C05_exact_for_single_key_principals.
+
+(** ... and the object's own signature adds exactly its holder, if the holder is a principal of the
+    verifier that the envelope has not credited. *)
+Theorem C05_object_signature_adds_its_holder : forall v sigs,
+  simple (v_principals v) -> sigs <> [] -> v_exhaustive v = false -> (1 < v_threshold v)%Z -> v_principals v <> [] ->
+  forall g p, In p (v_principals v) -> key_of p = g -> ~ In (p_id p) (cred (v_principals v) sigs []) ->
+  (v_threshold v - 1 <= Z.of_nat (List.length (cred (v_principals v) sigs [])))%Z ->
+  exists s, verify v true g (Some sigs) = VOkSet s.
+Proof. exact recorder_adds_one. Qed.
+Print Assumptions C05_object_signature_adds_its_holder.
